@@ -148,6 +148,9 @@ type Violation struct {
 	Step   int    `json:"step"` // index of the op at which it was detected (-1: end of run)
 	// Sig is a structural signature used to match known findings (DESIGN §3.6).
 	Sig map[string]string `json:"sig,omitempty"`
+	// NoShrink: the violation leaves the process in a state (e.g. a lock held for ever) in
+	// which further candidates cannot be judged; report the scenario as found.
+	NoShrink bool `json:"no_shrink,omitempty"`
 }
 
 func (v *Violation) String() string {
